@@ -144,5 +144,8 @@ func c10Scenarios(tier string) []*Scenario {
 	sc = append(sc, famContend(true, b)...)
 	sc = append(sc, famAPIRelease(true, b)...)
 	sc = append(sc, famMove(b)...)
+	// lagging informer cache (four threads: one preemption at most); nodes of one subnet, free node choice
+	lb := map[string]int{"preempt": 1, "cloudfail": b["cloudfail"], "node": b["node"]}
+	sc = append(sc, famLag(true, lb)...)
 	return sc
 }
